@@ -89,6 +89,19 @@ func ruleRecKey(c *Ctx) {
 			}
 			elems[ld] = true
 		})
+		// entries decoded from a segment: the first result of (*DataFile).ReadAt
+		calls(f, func(ci ssa.CallInstruction) {
+			if !calleeIs(ci.Common(), modPath, "DataFile", "ReadAt") {
+				return
+			}
+			if v, ok := ci.(ssa.Value); ok {
+				for _, r := range *v.Referrers() {
+					if ex, ok := r.(*ssa.Extract); ok && ex.Index == 0 {
+						elems[ex] = true
+					}
+				}
+			}
+		})
 		if len(elems) == 0 {
 			continue
 		}
